@@ -10,6 +10,8 @@ from .values import Unsupported
 
 QUICK_TIMEOUT_MS = int(os.environ.get('PYVC_TIMEOUT_MS', '20000'))
 FEAS_TIMEOUT_MS = 3000
+KNOWN_RLIMIT = int(os.environ.get('PYVC_KNOWN_RLIMIT', '12000000'))
+FAST_RLIMIT = int(os.environ.get('PYVC_FAST_RLIMIT', '1500000'))
 Z3_FIRST_MS = int(os.environ.get('PYVC_Z3_FIRST_MS', '1500'))
 CVC5 = '/usr/bin/cvc5'
 
@@ -137,7 +139,10 @@ class Ctx:
         self.named = {}                # name -> z3 term (inputs shown in counterexamples)
         self.guards = []               # extra hypothesis stack for obligations in lazy evaluations
         self.solver = z3.Solver()
-        self.solver.set('timeout', FEAS_TIMEOUT_MS)
+        # internal queries (branch feasibility, in-range checks, bound leaves) use z3's deterministic resource limit, not
+        # wall-clock time: their outcome steers the symbolic execution and must not depend on machine load
+        self.solver.set('timeout', 60000)
+        self.solver.set('rlimit', KNOWN_RLIMIT)
         self.notes = []
         self.family = []               # active L3 loop levels (loops.Family)
         self.pos_ids = set()           # z3 ast ids of terms known >= 1 / >= 0 (syntactic sign inference)
@@ -228,6 +233,16 @@ class Ctx:
             return False
         return self._check(z3.Not(cz)) == z3.unsat
 
+    def named_local(self, prefix):
+        """let-named local `prefix` (latest definition), or None"""
+        best = None
+        for (const, d) in self.defs.values():
+            nm = const.decl().name()
+            if nm.rsplit('!', 1)[0] == prefix:
+                if best is None or int(nm.rsplit('!', 1)[1]) > int(best.decl().name().rsplit('!', 1)[1]):
+                    best = const
+        return V.SInt(best) if best is not None else None
+
     def known_fast(self, cz, ms=400):
         """pc => cz proved within a very small budget (used by the syntactic bound prover)"""
         cz = z3.simplify(V.zbool(cz))
@@ -235,11 +250,11 @@ class Ctx:
             return True
         if z3.is_false(cz):
             return False
-        self.solver.set('timeout', ms)
+        self.solver.set('rlimit', FAST_RLIMIT)
         try:
             return self._check(z3.Not(cz)) == z3.unsat
         finally:
-            self.solver.set('timeout', FEAS_TIMEOUT_MS)
+            self.solver.set('rlimit', KNOWN_RLIMIT)
 
     # ---- bound lemmas: help the solver with the mixed-radix pattern before it sees an obligation
     def _atoms_of(self, cz, out, depth=0):
@@ -403,9 +418,9 @@ class Ctx:
         ob.path = ''.join(('T' if d is True else 'F' if d is False else str(d)) for d in self.trail)
         ex.seen[key] = ob
         ex.obligations.append(ob)
-        if z3.is_true(goal):
+        if z3.is_true(goal) or self._identity(goal):
             ob.status = 'discharged'
-            ob.backend = 'simplifier'
+            ob.backend = 'simplifier' if z3.is_true(goal) else 'normaliser'
             return ob
         t0 = time.time()
         # back-end schedule: z3 with a short budget (almost everything is decided in milliseconds), then cvc5
@@ -478,6 +493,27 @@ class Ctx:
             ob.status = 'undecided'
             ob.reason = f'solver unknown ({s.reason_unknown()})'
         return ob
+
+    def _identity(self, goal, depth=0):
+        """goal is valid by polynomial normalisation alone: t1 == t2 with t1 - t2 == 0 after sum-of-monomials
+        expansion (let-definitions expanded), f(args) == f(args') argument-wise, conjunctions thereof.  A sufficient
+        syntactic check that makes the many 'same polynomial written differently' obligations independent of solver luck."""
+        try:
+            if z3.is_and(goal):
+                return all(self._identity(ch, depth + 1) for ch in goal.children())
+            if z3.is_eq(goal):
+                a, b = goal.arg(0), goal.arg(1)
+                if a.eq(b):
+                    return True
+                if z3.is_int(a) and z3.is_int(b):
+                    d = z3.simplify(V._expand_defs(self, a - b), som=True)
+                    return z3.is_int_value(d) and d.as_long() == 0
+                if z3.is_app(a) and z3.is_app(b) and a.decl().eq(b.decl()) and a.num_args() > 0 \
+                        and a.decl().kind() == z3.Z3_OP_UNINTERPRETED and depth < 3:
+                    return all(self._identity(x == y, depth + 1) for x, y in zip(a.children(), b.children()))
+        except Exception:
+            return False
+        return False
 
     def _model_json(self, m, model_terms=None):
         out = {}
